@@ -208,7 +208,13 @@ def gen_case(rng, tier, i):
                         lops.append(["W", _mask(rng, some_triple(g))])
                 lops = [l for l in lops if not any(x in BNODES for row in (l[1] if l[0] != "W" else [l[1]]) for x in row if x)]
                 if lops:
-                    ops.append(["update", g, lops, rng.randint(0, 3)])
+                    style = rng.randint(0, 3)
+                    if rng.random() < 0.3:
+                        w = ["W", _mask(rng, some_triple(g))]
+                        w[1] = [x if x not in BNODES else None for x in w[1]]
+                        if any(x is not None for x in w[1]):
+                            lops, style = [w], 4
+                    ops.append(["update", g, lops, style])
             elif k < 0.91:
                 ops.append(["commit"])
             else:
@@ -227,7 +233,7 @@ def gen_case(rng, tier, i):
                 ops.append(["contexts", None if rng.random() < 0.4 else
                             (list(rng.choice(falsy)) if falsy and rng.random() < 0.6 else some_triple())])
             elif k < 0.93:
-                kind = rng.choice(["spo", "pfx", "bind", "ask", "named"])
+                kind = rng.choice(["spo", "pfx", "bind", "bind2", "ask", "named"])
                 if kind == "named" and cfg == "graph":
                     kind = "spo"
                 t = some_triple(g)
@@ -311,6 +317,8 @@ def model_lines(case):
                 lines.append(f"triples * 10 * {_g(g)}")
             elif kind == "bind":
                 lines.append(f"triples * * {t[2]} {_g(g)}")
+            elif kind == "bind2":
+                lines.append(f"triples {t[0]} * {t[2]} {_g(g)}")
             elif kind == "ask":
                 lines.append(f"contains {t[0]} {t[1]} {t[2]} {_g(g)}")
             else:
@@ -505,8 +513,13 @@ def run_impl(case):
             t.graph(GNAME[op[1]])
         elif k == "update":
             g, lops, style = op[1:]
-            text = update_text(lops, style, T)
-            (t if (cfg == "graph" or (g == 0 and cfg != "cg")) else view(t, g)).update(text)
+            tgt = t if (cfg == "graph" or (g == 0 and cfg != "cg")) else view(t, g)
+            if style == 4:   # one DELETE/WHERE whose bound positions arrive as initBindings
+                pat = lops[0][1]
+                ib = {"abc"[i]: T(x) for i, x in enumerate(pat) if x is not None}
+                tgt.update("DELETE { ?a ?b ?c } WHERE { ?a ?b ?c }", initBindings=ib)
+            else:
+                tgt.update(update_text(lops, style, T))
         elif k == "commit":
             t.commit()
         elif k == "rollback":
@@ -564,6 +577,10 @@ def run_impl(case):
                     result = [(r[0], PREDS[10], r[1]) for r in rows]
                 elif kind == "bind":
                     rows = list(tgt.query("SELECT ?s ?p ?o WHERE { ?s ?p ?o }", initBindings={"o": term(t3[2])}))
+                    result = [(r[0], r[1], r[2]) for r in rows]
+                elif kind == "bind2":
+                    rows = list(tgt.query("SELECT ?s ?p ?o WHERE { ?s ?p ?o }",
+                                          initBindings={"o": term(t3[2]), "s": term(t3[0])}))
                     result = [(r[0], r[1], r[2]) for r in rows]
                 elif kind == "ask":
                     res = tgt.query(f"ASK {{ {term(t3[0]).n3()} {term(t3[1]).n3()} {term(t3[2]).n3()} }}")
@@ -666,12 +683,13 @@ def run_impl(case):
         # ---- reads return exactly what the endpoint's dataset contains
         if is_read and exc is None and not has_bn:
             bump("read_results", len(result) if isinstance(result, list) else 1)
-            if k == "triples" or (k == "query" and op[1] in ("spo", "pfx", "bind")):
+            if k == "triples" or (k == "query" and op[1] in ("spo", "pfx", "bind", "bind2")):
                 if k == "triples":
                     pat, g = op[1:4], op[4]
                 else:
                     g = op[2]
-                    pat = {"spo": [None, None, None], "pfx": [None, 10, None], "bind": [None, None, op[3][2]]}[op[1]]
+                    pat = {"spo": [None, None, None], "pfx": [None, 10, None], "bind": [None, None, op[3][2]],
+                           "bind2": [op[3][0], None, op[3][2]]}[op[1]]
                 want = expected(g, pat, B)
                 got = [(tkey(a), tkey(b), tkey(c)) for a, b, c in result]
                 if set(got) != want or len(got) != len(set(got)):
@@ -793,10 +811,10 @@ def shrink(case):
         if op[0] == "addN" and len(op[1]) > 1:
             for j in range(len(op[1])):
                 yield {**case, "ops": ops[:i] + [["addN", op[1][:j] + op[1][j + 1:]]] + ops[i + 1:]}
-        if op[0] == "update" and len(op[2]) > 1:
+        if op[0] == "update" and len(op[2]) > 1 and op[3] != 4:
             for j in range(len(op[2])):
                 yield {**case, "ops": ops[:i] + [["update", op[1], op[2][:j] + op[2][j + 1:], op[3]]] + ops[i + 1:]}
-        if op[0] == "update" and op[3] != 0:
+        if op[0] == "update" and op[3] not in (0, 4):
             yield {**case, "ops": ops[:i] + [["update", op[1], op[2], 0]] + ops[i + 1:]}
 
 
